@@ -387,7 +387,9 @@ def cell_pairs(full=True):
         for ck in child_kinds:
             ca = child_arity(ck)
             cvars = variants(ck, ca, True)
-            if full:
+            if full == 'canon':
+                combos = [(variants(pk, pa, False)[0], variants(ck, ca, False)[0])]
+            elif full:
                 combos = [(pv, cv) for pv in pvars for cv in cvars]
             else:
                 combos = [(pv, cvars[0]) for pv in pvars] + [(pvars[0], cv) for cv in cvars[1:]]
@@ -465,3 +467,114 @@ def features(d, acc=None):
     for c in ch:
         features(c, acc)
     return acc
+
+
+# ---------------------------------------------------------------------------------------------
+# DSL surgery (pairs / near misses)
+
+
+def node_paths(d, prefix=()):
+    """Paths (tuples of child indices) of every node of the DSL tree, pre-order, leaves included."""
+    yield prefix
+    if d != 'L':
+        for i, c in enumerate(d[2]):
+            yield from node_paths(c, (*prefix, i))
+
+
+def get_at(d, path):
+    for i in path:
+        d = d[2][i]
+    return d
+
+
+def replace_at(d, path, new):
+    if not path:
+        return new
+    kind, params, ch = d
+    ch = list(ch)
+    ch[path[0]] = replace_at(ch[path[0]], path[1:], new)
+    return [kind, params, ch]
+
+
+def substitute_leaves(d, sub):
+    """Every "L" replaced by the DSL `sub` (a true suffix of d)."""
+    if d == 'L':
+        return sub
+    return [d[0], d[1], [substitute_leaves(c, sub) for c in d[2]]]
+
+
+def _keys_of(d):
+    kind, params, ch = d
+    return list((params or {}).get('keys', CORE_KEYS.get(len(ch), [])))
+
+
+def dict_variant(d):
+    """Same structure, but dict kinds rotated (dict->odict->ddict->dict) with reversed insertion
+    order and deque maxlen changed: must still match as prefix / rest."""
+    if d == 'L':
+        return d
+    kind, params, ch = d
+    ch = [dict_variant(c) for c in ch]
+    params = dict(params or {})
+    if kind in DICT_KINDS:
+        keys = _keys_of(d)
+        nk = {'dict': 'odict', 'odict': 'ddict', 'ddict': 'dict'}[kind]
+        params = {'keys': list(reversed(keys))}
+        if nk == 'ddict':
+            params['factory'] = 'list'
+        return [nk, params, list(reversed(ch))]
+    if kind == 'deque':
+        params['maxlen'] = {None: 'len+1', 'len': None, 'len+1': 'len'}[params.get('maxlen')]
+        params.pop('hist', None)
+        return [kind, params, ch]
+    return [kind, params or None, ch]
+
+
+SEQ_SWAP = {'tuple': 'list', 'list': 'tuple', 'cg': 'cs', 'cs': 'cg', 'nt': 'tuple', 'nts': 'nt', 'ss2': 'nts'}
+
+
+def local_edits(d, path):  # noqa: C901
+    """One-edit near misses applied at the node at `path` (list of (label, new DSL))."""
+    node = get_at(d, path)
+    out = []
+    if node == 'L':
+        return out
+    kind, params, ch = node
+    params = dict(params or {})
+
+    def put(label, new):
+        out.append((label, replace_at(d, path, new)))
+
+    if kind in SEQ_SWAP and (SEQ_SWAP[kind] not in FIXED_ARITY or FIXED_ARITY[SEQ_SWAP[kind]] == len(ch)):
+        put(f'kind:{kind}->{SEQ_SWAP[kind]}', [SEQ_SWAP[kind], None, ch])
+    if kind == 'nt' and len(ch) == 2:
+        put('ntclass:NT2->NT2s', ['nts', None, ch])
+    if kind in DICT_KINDS:
+        keys = _keys_of(node)
+        put(f'kind:{kind}->list', ['list', None, ch])
+        if keys:
+            renamed = [*keys[:-1], 'renamed_key']
+            put('key:rename', [kind, dict(params, keys=renamed), ch])
+            put('key:drop', [kind, dict(params, keys=keys[:-1]), ch[:-1]])
+        if len(keys) < 5:
+            p2 = dict(params, keys=[*keys, 'added_key'])
+            p2.pop('hist', None)
+            put('key:add', [kind, p2, [*ch, 'L']])
+    elif kind in ('tuple', 'list', 'deque', 'cg', 'cn', 'cs'):
+        if ch:
+            put('arity:-1', [kind, params or None, ch[:-1]])
+        put('arity:+1', [kind, params or None, [*ch, 'L']])
+    if kind == 'deque':
+        put('kind:deque->list', ['list', None, ch])
+    if kind == 'cn':
+        put('meta:change', ['cn', dict(params, meta='changed'), ch])
+    if kind == 'cd':
+        keys = _keys_of(node)
+        if keys:
+            put('cd:key-rename', ['cd', dict(params, keys=[*keys[:-1], 'zz']), ch])
+    if kind == 'dc':
+        put('dc:meta-change', ['dc', {'m': 'changed'}, ch])
+    if kind == 'none':
+        put('none->tuple0', ['tuple', None, []])
+    put('node->leaf', 'L')
+    return out
